@@ -290,6 +290,8 @@ def gen_case(rng):
     style = rng.random()
     if style < 0.35:
         ranks = [0] * N
+    elif style < 0.45:
+        ranks = [rng.choice([0, 2, 9, 10, 11, 12]) for _ in range(N)]                  # priors with two-digit ranks
     elif style < 0.8:
         ranks = [rng.randint(0, 4) for _ in range(N)]
     else:
